@@ -85,7 +85,7 @@ def theta_lattice(n, bound, rng, n_generic, f32_exp_cap=None):
         v = rng.normal(size=n)
         pats.append(v / np.abs(v).max())
     pats = np.stack(pats)
-    scales = [1e-9, 1e-6, 1e-3, 0.5, 1.0, 2.0, 10.0, bound]  # 1e-9, 1e-6: scale-invariant maps (quotients, orthonormalisations) at tiny norms
+    scales = [1e-14, 1e-9, 1e-6, 1e-3, 0.5, 1.0, 2.0, 10.0, bound]  # 1e-14 (below the default eps 1e-12 of library normalisers), 1e-9, 1e-6: scale-invariant maps (quotients, orthonormalisations) at tiny norms
     if f32_exp_cap is not None:
         scales = sorted({min(s, f32_exp_cap) for s in scales})
     scales = sorted(set(scales))
@@ -558,7 +558,7 @@ def build_cases(tier, seed):
             for prec in (64, 32):
                 cases.append({'kind': 'abk', 'cls': cls, 'dim': dA, 'dimB': dB, 'k': k, 'prec': prec})
     cases.sort(key=lambda c: (c['dim'], c.get('rank') or 0, c['kind']))
-    info = {'dims': dims, 'generic_atoms_per_config': 2 if tier == 'quick' else 6, 'scales': [1e-9, 1e-6, 1e-3, 0.5, 1, 2, 10, 'bound'],
+    info = {'dims': dims, 'generic_atoms_per_config': 2 if tier == 'quick' else 6, 'scales': [1e-14, 1e-9, 1e-6, 1e-3, 0.5, 1, 2, 10, 'bound'],
             'batch_shapes': ['(K,)', '(K/2,2)', '()', '(1,)'], 'module_batch_sizes': [None, 1, 3], 'theta_dtypes': ['float', 'int64 (integer lattice points, 64 bit)'],
             'memory_layouts': ['C', 'Fortran / re-strided (GUARD_LAYOUT)'], 'pending': sorted(PENDING), 'exhaustive': True,
             'note': 'the configuration product up to the dimension bound and the theta lattice of each configuration are enumerated completely'}
